@@ -108,6 +108,8 @@ def check(chk):
     _cache(chk)
     _query_mutates(chk)
     _borrowed(chk)
+    _serialize_mutates(chk)
+    _borrowed_stages(chk)
     _refit_borrowed(chk)
     _defaults(chk)
     # the metadata dict is re-encoded in place by every fit: nothing that steers a computation is read from it
@@ -517,6 +519,99 @@ def _borrowed_path(p: Path, fn: FuncInfo) -> str | None:
     return None
 
 
+def _borrowed_stages(chk):
+    """OWN.borrowed.stage - a rotator / bootstrapper fitted on a model keeps answering from what it was fitted on.  The
+    model's stage objects (preprocessor, pca, whitener ...) are created once in the model's constructor and RE-FITTED IN
+    PLACE by every model.fit(); an object that stores a reference to them (``self.preprocessor = model.preprocessor``)
+    changes its own transform / inverse_transform results when the model is fitted again.  The stage objects taken over
+    from a model are copies (copy.deepcopy / copy.copy(...) / a serialise-deserialise round trip)."""
+    pm = chk.pm
+    n = 0
+    COPIES = {"deepcopy", "copy", "deserialize", "clone"}
+    for cls in pm.classes.values():
+        for fn in cls.methods.values():
+            if "model" not in fn.params:
+                continue
+            for st in walk_no_nested(fn.node):
+                if not (isinstance(st, ast.Assign) and len(st.targets) == 1 and is_self_attr(st.targets[0])):
+                    continue
+                v = st.value
+                if not (isinstance(v, ast.Attribute) and isinstance(v.value, ast.Name) and v.value.id == "model"):
+                    inner = [x for x in ast.walk(v) if isinstance(x, ast.Attribute) and isinstance(x.value, ast.Name) and x.value.id == "model"]
+                    wrapped = isinstance(v, ast.Call) and (dotted(v.func) or "").split(".")[-1] in COPIES and inner
+                    if wrapped and any(_is_stage_attr(pm, x.attr) for x in inner):
+                        n += 1
+                        chk.ok("OWN.borrowed.stage", fn, st, construct=f"{cls.name}: self.{st.targets[0].attr} is a copy of model.{inner[0].attr}")
+                    continue
+                if not _is_stage_attr(pm, v.attr):
+                    continue
+                n += 1
+                chk.check(False, "OWN.borrowed.stage", fn, st, construct=f"{cls.name}: self.{st.targets[0].attr} is a copy of model.{v.attr}",
+                          why=f"{fn.qualname} stores a reference to model.{v.attr}, which model.fit() re-fits in place: after the base model is fitted on other data this object's "
+                              "transform / inverse_transform answer with the new preprocessing although it was never fitted again (take a copy)")
+    chk.require(n >= 3, f"OWN.borrowed.stage: only {n} stage objects taken over from a model found (anchor vanished)")
+
+
+_STAGE_CACHE: dict = {}
+
+
+def _is_stage_attr(pm, attr: str) -> bool:
+    """is ``attr`` an attribute that some model class binds to a Transformer / Preprocessor object in its constructor and
+    whose fit / fit_transform it calls (i.e. an object re-fitted in place)"""
+    if attr in _STAGE_CACHE:
+        return _STAGE_CACHE[attr]
+    t = pm.cls("xeofs.preprocessing.transformer.Transformer")
+    prep = pm.cls("xeofs.preprocessing.preprocessor.Preprocessor")
+    res = False
+    for cls in pm.classes.values():
+        ty = pm.attrtype(cls, attr)
+        tys = ty if isinstance(ty, (list, tuple, set)) else [ty]
+        for y in tys:
+            if hasattr(y, "mro") and (t in y.mro or y is prep or prep in y.mro):
+                res = True
+    _STAGE_CACHE[attr] = res
+    return res
+
+
+def _serialize_mutates(chk):
+    """HIST.serialize_mutates - serialize() (also run by compute(), save() and every rotator fit with compute=True) only
+    READS the live objects: a name / attribute written on an array it is handed (``data.name = key``) changes the label of
+    the live state array - PCA.V becomes 'V' and every later components() of a cross-set model is called 'V', a user's
+    weights array is renamed in the user's hands."""
+    pm = chk.pm
+    n = 0
+    for fn in pm.all_functions():
+        if fn.name not in ("_serialize_data", "_serialize", "serialize", "get_serialization_attrs"):
+            continue
+        ff = None
+        params = {p for p in fn.params if p not in ("self", "cls")}
+        for st in walk_no_nested(fn.node):
+            if not isinstance(st, (ast.Assign, ast.AugAssign)):
+                continue
+            for t in (st.targets if isinstance(st, ast.Assign) else [st.target]):
+                base = None
+                if isinstance(t, ast.Attribute) and t.attr in ("name", "attrs", "values", "data", "encoding"):
+                    base = t.value
+                elif isinstance(t, ast.Subscript) and isinstance(t.value, ast.Attribute) and t.value.attr in ("attrs", "coords", "encoding"):
+                    base = t.value.value
+                if not isinstance(base, ast.Name):
+                    continue
+                ff = ff or FuncFacts.of(fn)
+                defs = ff.rd.reaching(base.id, ff.node_of(st))
+                live = any(d.kind == "param" for d in defs) or any(isinstance(d.stmt, ast.For) and any(
+                    isinstance(x, ast.Call) and isinstance(x.func, ast.Attribute) and x.func.attr in ("items", "values") and (is_self_attr(x.func.value) or (isinstance(x.func.value, ast.Name) and x.func.value.id == "self"))
+                    for x in ast.walk(d.stmt.iter)) for d in defs)
+                if base.id in params or live:
+                    # a loop variable over the object's own items / a parameter: the live object
+                    fresh = any(d.kind == "assign" and d.value is not None and any(isinstance(x, ast.Call) and isinstance(x.func, ast.Attribute) and x.func.attr in ("copy", "rename", "to_dataset", "reset_index")
+                                                                                      for x in ast.walk(d.value)) for d in defs)
+                    n += 1
+                    chk.check(fresh and not any(d.kind == "param" for d in defs), "HIST.serialize_mutates", fn, st, construct=f"{fn.qualname}: `{norm(t)}` is written on a copy",
+                              why=f"{fn.qualname} writes `{norm(st)[:60]}` on the live object it serialises: serialize() / compute() / save() change the labels the model returns afterwards "
+                                  "(and a user's array kept by reference is renamed in the user's hands)")
+    chk.ok("HIST.serialize_mutates", "xeofs", None, construct=f"<writes on live objects in serialisation functions: {n}>", nontrivial=False)
+
+
 def _borrowed(chk):
     pm = chk.pm
     n = 0
@@ -746,18 +841,25 @@ def _refit_borrowed(chk):
                         v = n.value
                         if isinstance(v, ast.Attribute) and isinstance(v.value, ast.Name) and v.value.id == "model":
                             borrowed.add(n.targets[0].attr)
-        if not borrowed:
-            continue
         fit = cls.resolve("fit")
+        takes_model = fit is not None and "model" in fit.params
+        if not borrowed and not takes_model:
+            continue
         bad = []
         for fn in self_closure(pm, cls, fit):
             for c in calls_in(fn):
                 f = c.func
                 if isinstance(f, ast.Attribute) and f.attr in ("fit", "fit_transform") and is_self_attr(f.value) and f.value.attr in borrowed:
                     bad.append((fn, c, f.value.attr))
+                # ... nor through the model handed in
+                if takes_model and "model" in fn.params and isinstance(f, ast.Attribute) and f.attr in ("fit", "fit_transform") and isinstance(f.value, ast.Attribute) \
+                        and isinstance(f.value.value, ast.Name) and f.value.value.id == "model":
+                    bad.append((fn, c, "model." + f.value.attr))
+                if takes_model and "model" in fn.params and isinstance(f, ast.Attribute) and f.attr in ("fit", "fit_transform") and isinstance(f.value, ast.Name) and f.value.id == "model":
+                    bad.append((fn, c, "model"))
         for fn, c, a in bad:
             chk.violation("OWN.refit", fn, c, context=cls.name,
-                          why=f"self.{a} is the base model's own stage object; re-fitting it changes what the base model returns")
+                          why=f"{a if a.startswith('model') else 'self.' + a} is the base model's own (stage) object; re-fitting it changes what the base model returns")
         chk.ok("OWN.refit", cls.qualname, None, construct=f"{cls.name}: borrowed stage objects {sorted(borrowed)} are not re-fitted", nontrivial=True)
 
 
